@@ -11,6 +11,7 @@ import CobaldVerif.Drive.C17
 import CobaldVerif.Drive.C18
 import CobaldVerif.Drive.C19
 import CobaldVerif.Drive.RT
+import CobaldVerif.Drive.EX
 
 namespace Cobald.Drive
 open Lean
@@ -30,6 +31,7 @@ def dispatch (prop : String) (j : Json) : Except String Json :=
   | "C18" => C18.handle j
   | "C19" => C19.handle j
   | "RT" => RT.handle j
+  | "EX" => EX.handle j
   | p => throw s!"unknown property {p}"
 
 /-- one request line `<prop> <json>` → one canonical JSON line -/
